@@ -219,7 +219,7 @@ def main(check_module, argv=None):
             k = json.dumps([c["oracle"], c["args"]], sort_keys=True)
             if k not in seen:
                 seen.add(k)
-                cands.append(c)
+                cands.append(dict(c, job=r["job"]))
 
     # ---- replay every candidate on the real package
     known = load_known(pid)
@@ -228,9 +228,9 @@ def main(check_module, argv=None):
     for c in cands:
         if len(violations) >= 6:
             break
-        wk = (c["oracle"], c["why"].split(" [")[0])
+        wk = (c["job"], c["oracle"], c["why"].split(" [")[0])
         per_why[wk] = per_why.get(wk, 0) + 1
-        if per_why[wk] > 3 or sum(per_why.values()) > 60:
+        if per_why[wk] > 2 or sum(per_why.values()) > 120:
             continue
         res = run_oracle(mod.__name__, c["oracle"], c["args"])
         c["replay"] = res
